@@ -137,9 +137,17 @@ impl EventSource for Child {
 }
 
 /// The parent: forwards everything to its TransientSource, as the documentation shows.
+pub enum InProc {
+    Remove,
+    Replace(Child),
+}
+
 pub struct TrParent {
     pub tr: TransientSource<Child>,
     pub rets: Rc<RefCell<Vec<PostAction>>>,
+    /// remove()/replace() requested by the callback: applied during this very process_events,
+    /// after the child has been processed ("may be called at any time during processing")
+    pub inproc: Rc<RefCell<Vec<InProc>>>,
 }
 
 impl EventSource for TrParent {
@@ -154,6 +162,16 @@ impl EventSource for TrParent {
     {
         let r = self.tr.process_events(readiness, token, callback)?;
         self.rets.borrow_mut().push(r);
+        let mut r = r;
+        let todo: Vec<InProc> = self.inproc.borrow_mut().drain(..).collect();
+        for t in todo {
+            match t {
+                InProc::Remove => self.tr.remove(),
+                InProc::Replace(c) => self.tr.replace(c),
+            }
+            // as documented: the change requires PostAction::Reregister from this call
+            r = PostAction::Reregister;
+        }
         Ok(r)
     }
 
@@ -189,6 +207,7 @@ pub struct TransK {
     pub pending_replace: Option<usize>,
     pub rets: Rc<RefCell<Vec<PostAction>>>,
     pub rets_checked: usize,
+    pub inproc: Rc<RefCell<Vec<InProc>>>,
 }
 
 fn make_child(sim: &Sim, spec: &ChildSpec, no: u32) -> (Child, ChildM) {
@@ -218,6 +237,7 @@ pub fn insert_transient(sim: &Sim, id: Id, child: &ChildSpec, from_default: bool
         return;
     }
     let rets = Rc::new(RefCell::new(Vec::new()));
+    let inproc = Rc::new(RefCell::new(Vec::new()));
     let (tr, children, current) = if from_default {
         (TransientSource::default(), vec![], None)
     } else {
@@ -227,11 +247,11 @@ pub fn insert_transient(sim: &Sim, id: Id, child: &ChildSpec, from_default: bool
     let sh = WrapShared::new(id);
     let cbd = Rc::new(Cell::new(0));
     let guard = DropCtr(cbd.clone());
-    let disp = Dispatcher::new(Wrap::new(TrParent { tr, rets: rets.clone() }, sh.clone()), move |child_no: u32, _, tag: &mut Tag| {
+    let disp = Dispatcher::new(Wrap::new(TrParent { tr, rets: rets.clone(), inproc: inproc.clone() }, sh.clone()), move |child_no: u32, _, tag: &mut Tag| {
         let _g = &guard;
         on_child_event(id, child_no, tag);
     });
-    let mut src = new_src(id, script, K::Trans(TransK { disp: Some(disp.clone()), children, current, child_disabled: false, pending_remove: false, pending_replace: None, rets, rets_checked: 0 }), sh, cbd);
+    let mut src = new_src(id, script, K::Trans(TransK { disp: Some(disp.clone()), children, current, child_disabled: false, pending_remove: false, pending_replace: None, rets, rets_checked: 0, inproc }), sh, cbd);
     src.kept = true;
     let r = guarded(sim, "register_dispatcher", || h.register_dispatcher(disp).map_err(|e| e.to_string()));
     if let Some(r) = r {
@@ -384,7 +404,35 @@ pub fn tr_op(sim: &Sim, id: Id, op: &Op, in_cb: bool) {
     }) else {
         return;
     };
-    if in_proc || sim.st.borrow().srcs.get(&id).map(|s| s.indeterminate).unwrap_or(true) {
+    if sim.st.borrow().srcs.get(&id).map(|s| s.indeterminate).unwrap_or(true) {
+        return;
+    }
+    if in_proc {
+        // from the parent's own callback: queued, applied by the parent inside this
+        // process_events call, which then returns Reregister
+        let mut st = sim.st.borrow_mut();
+        let Some(K::Trans(t)) = st.srcs.get_mut(&id).map(|s| &mut s.k) else { return };
+        if t.pending_replace.is_some() || t.pending_remove || !t.inproc.borrow().is_empty() || t.current.is_none() {
+            return; // one change per re-registration
+        }
+        match op {
+            Op::TrRemove(_) => {
+                t.inproc.borrow_mut().push(InProc::Remove);
+                t.pending_remove = true;
+            }
+            Op::TrReplace(_, spec) => {
+                let no = t.children.len() as u32;
+                drop(st);
+                let (c, m) = make_child(sim, spec, no);
+                let mut st = sim.st.borrow_mut();
+                let Some(K::Trans(t)) = st.srcs.get_mut(&id).map(|s| &mut s.k) else { return };
+                t.children.push(m);
+                t.pending_replace = Some(t.children.len() - 1);
+                t.inproc.borrow_mut().push(InProc::Replace(c));
+            }
+            _ => {}
+        }
+        sim.probe("transient_change_during_processing");
         return;
     }
     match op {
